@@ -2,12 +2,13 @@
 //
 // Valid checksummed snapshots (internal/rdbx) are damaged / the target fails / the replay is
 // cancelled, and the real parser and RedisOutput.Send are observed:
-//   trunc-i, alter-i : every truncation length and every single-byte alteration (+1, ^0x80, →0xFF)
-//                      of snapshot i through rdb.ParseRdb (+ the per-type expansion of every entry)
-//   full-i           : a PRNG sample of those damages through the full Send path (restore on/off)
-//   tgterr-i         : the target answers an error at its k-th write request, for every k
-//   cancel-i         : the replay context is cancelled at the k-th target request for every k, and
-//                      right after the last snapshot byte was consumed while replies are slow
+//
+//	trunc-i, alter-i : every truncation length and every single-byte alteration (+1, ^0x80, →0xFF)
+//	                   of snapshot i through rdb.ParseRdb (+ the per-type expansion of every entry)
+//	full-i           : a PRNG sample of those damages through the full Send path (restore on/off)
+//	tgterr-i         : the target answers an error at its k-th write request, for every k
+//	cancel-i         : the replay context is cancelled at the k-th target request for every k, and
+//	                   right after the last snapshot byte was consumed while replies are slow
 package main
 
 import (
@@ -35,6 +36,7 @@ func baseScenario(r *rand.Rand, idx string, parallelBias bool) *fullsync.Scenari
 	sc.Restore = r.Intn(2) == 0
 	sc.Parallel = []int{1, 2, 8}[r.Intn(3)]
 	sc.PipeSize = []int{1, 16, 1024}[r.Intn(3)]
+	sc.Bisync = r.Intn(4) == 0
 	opt := rdbx.GenOptions{Version: ver, NowMs: time.Now().UnixMilli(), IDPrefix: "k" + idx + ":", Avoid: []string{"listpacks4"}, NumKeys: 2 + r.Intn(5), NoTTL: r.Intn(2) == 0}
 	if parallelBias {
 		opt.NumKeys = 6 + r.Intn(10)
@@ -381,10 +383,14 @@ func hasCp(out *fullsync.Outcome, off int64) bool {
 }
 
 func pathName(sc *fullsync.Scenario) string {
+	p := "expand"
 	if sc.Restore {
-		return "restore"
+		p = "restore"
 	}
-	return "expand"
+	if sc.Bisync {
+		p += "+bisync"
+	}
+	return p
 }
 
 func posClass(k, n int) string {
